@@ -112,8 +112,20 @@ def gen_case(run_seed: int, tier: str, index: int = 0) -> dict:
             step["fault"] = {"exc": r.choice(list(EXCS))}
         # a pass may be handed the PassResult of the previous pass instead of the model (chaining form)
         step["via_result"] = Streams(run_seed).rng(f"via-result-{len(schedule)}").random() < 0.2
+        step["sibling_first"] = Streams(run_seed).rng(f"sibling-first-{len(schedule)}").random() < 0.35
         schedule.append(step)
-    return {"property": PROPERTY, "run_seed": run_seed, "model_seed": r.randrange(1 << 30), "params": params, "schedule": schedule, "reuse_pass_objects": Streams(run_seed).rng("reuse-pass-objects").random() < 0.4}
+    model_seed = r.randrange(1 << 30)
+    reuse = Streams(run_seed).rng("reuse-pass-objects").random() < 0.4
+    dr = Streams(run_seed).rng("directed-stale-pass-state")
+    if dr.random() < 0.08:
+        # directed: a long-lived pass object first sees an earlier version of the model (helpers not called yet), then the
+        # model itself, in which functions call other functions
+        params.update(n_functions=2, p_call=0.45, unused_function=False, unsorted=False, name_noise=0.0, lazy_failing_init=False)
+        model_seed &= ~1
+        reuse = True
+        first = dr.choice(["RemoveUnusedFunctions", "RemoveUnusedFunctions", "Inline", "RemoveUnusedOpsets", "RemoveUnusedNodes"])
+        schedule.insert(0, {"pass": first, "opt": 0, "mode": "single", "fault": None, "via_result": False, "sibling_first": True})
+    return {"property": PROPERTY, "run_seed": run_seed, "model_seed": model_seed, "params": params, "schedule": schedule, "reuse_pass_objects": reuse}
 
 
 class _Boundary:
@@ -266,6 +278,19 @@ def _defined_outputs(model) -> dict:
     return {id(v): v for g in _all_graphs(model) for v in g.outputs if v is not None and _has_definition(v)}
 
 
+def _dangling_calls(model) -> set:
+    """Operator identifiers of the model-local domain that are called somewhere but defined nowhere in model.functions."""
+    local_domains = {k[0] for k in model.functions} | {"fdom"}
+    called = set()
+    nodes = list(model.graph.all_nodes())
+    for f in model.functions.values():
+        nodes.extend(f.all_nodes())
+    for n in nodes:
+        if n.domain in local_domains:
+            called.add(n.op_identifier())
+    return {c for c in called if c not in model.functions}
+
+
 def _size_bound(model) -> int:
     nodes = list(model.graph.all_nodes())
     for f in model.functions.values():
@@ -323,6 +348,26 @@ def run_case(case: dict) -> dict:
 
     rng = random.Random(case["model_seed"])
     model = modelgen.gen_model(rng, modelgen.Params(**case["params"]))
+    sibling = None
+    if case.get("reuse_pass_objects") and case["params"].get("n_functions"):
+        import random as _random
+
+        if case["model_seed"] % 2:
+            sibling = modelgen.gen_model(_random.Random(case["model_seed"] ^ 0xABCD), modelgen.Params(**dict(case["params"], lazy_failing_init=False)))
+        else:
+            # an earlier version of the same model: same function identifiers, but no function calls another one yet
+            # (the calls inside function bodies are plain Identity nodes) and helpers nobody calls do not exist
+            try:
+                sibling = model.clone()
+                for f in sibling.functions.values():
+                    for n in f.all_nodes():
+                        if n.op_identifier() in sibling.functions:
+                            n.domain, n.op_type = "", "Identity"
+                called = {n.op_identifier() for n in sibling.graph.all_nodes()}
+                for key in [k for k in sibling.functions if k not in called]:
+                    del sibling.functions[key]
+            except Exception:  # noqa: BLE001 - e.g. an unsorted model cannot be cloned
+                sibling = None
     trace = []
     viol = None
     nontrivial = False
@@ -352,6 +397,14 @@ def run_case(case: dict) -> dict:
             defined_before = _defined_outputs(model)
             dups_before = _duplicate_value_names(model, require_all_named=True)
             bound = _size_bound(model)
+            dangling_before = _dangling_calls(model)
+            if sibling is not None and step.get("sibling_first"):
+                # the same pass OBJECT is first applied to another model (same function identifiers, other bodies)
+                try:
+                    p(sibling)
+                except Exception:  # noqa: BLE001
+                    pass
+                inc("pass_object_applied_to_sibling_model_first")
             boundary.armed = step.get("fault")
             fired0 = boundary.fired
             rounds = 0
@@ -395,6 +448,13 @@ def run_case(case: dict) -> dict:
                     for v in g.outputs:
                         if v is not None and id(v) in defined_before and not _has_definition(v) and viol is None:
                             viol = ("output-lost-its-definition", f"step {si} {name}/{mode} ({out}): output {v.name!r} of graph {g.name!r} was produced by a node (or was an input/initializer) before the pass and is defined nowhere afterwards", f"output-lost-its-definition|{name}")
+            # ---- no damage: a pass does not delete a function that is still called
+            if viol is None:
+                for t in targets:
+                    new_dangling = _dangling_calls(t) - dangling_before
+                    if new_dangling:
+                        viol = ("pass-removed-called-function", f"step {si} {name}/{mode} ({out}): {sorted(map(str, new_dangling))[:2]} is still called but no longer defined in the model", f"pass-removed-called-function|{name}")
+                        break
             # ---- names needed for serialization: a pass never makes two values of one graph share a name
             if viol is None and not dups_before:
                 for t in targets:
